@@ -141,7 +141,9 @@ func scanShape(data []byte) (sh shape) {
 		if top.typ == "moov" && top.traks > sh.maxTraks {
 			sh.maxTraks = top.traks
 		}
-		pos = top.end
+		if top.end > pos { // never backwards: a child may end behind its parent (see below), the scan stays linear
+			pos = top.end
+		}
 		stack = stack[:len(stack)-1]
 	}
 	for len(stack) > 0 {
@@ -163,7 +165,11 @@ func scanShape(data []byte) (sh shape) {
 			}
 			size = int(uint32(data[pos+12])<<24 | uint32(data[pos+13])<<16 | uint32(data[pos+14])<<8 | uint32(data[pos+15]))
 		}
-		if size < hdr || size > top.end-pos {
+		// The slice-reader decoders bound a child by what is left of the whole input, not by its parent
+		// (decodeBoxSRAndInputSize: NrRemainingBytes); a child that ends behind its parent is decoded, with all that
+		// it contains, before the parent notices. The depth counted here follows that view (an over-approximation
+		// for the reader path, which is the safe direction for a shape that is only asked about from 1000 levels on).
+		if size < hdr || size > len(data)-pos {
 			pop()
 			continue
 		}
@@ -187,7 +193,15 @@ func scanShape(data []byte) (sh shape) {
 		case boxwalk.IsContainer(typ) && len(typ) == 4 && typ[0] >= 'a' && typ[0] <= 'z' && typ != "stpp" && typ != "wvtt" && typ != "evte" &&
 			typ != "avc1" && typ != "avc3" && typ != "hvc1" && typ != "hev1" && typ != "encv" && typ != "av01" && typ != "vvc1" && typ != "vvi1" &&
 			typ != "vp08" && typ != "vp09" && typ != "avs3" && typ != "mp4a" && typ != "enca" && typ != "mha1" && typ != "mhm1":
-			skip = 0 // plain containers; sample entries are left alone (their depth is bounded by the grammar)
+			skip = 0 // plain containers
+		case typ == "wvtt" || typ == "evte":
+			skip = 8 // sample entries decode their children as well: 65536 copies of a 30-byte wvtt entry whose size
+			// field reaches past the next copy are 20 000 levels to the library
+		case typ == "avc1" || typ == "avc3" || typ == "hvc1" || typ == "hev1" || typ == "encv" || typ == "av01" || typ == "vvc1" ||
+			typ == "vvi1" || typ == "vp08" || typ == "vp09" || typ == "avs3":
+			skip = 78
+		case typ == "mp4a" || typ == "enca" || typ == "mha1" || typ == "mhm1":
+			skip = 28
 		}
 		if skip >= 0 && hdr+skip <= size {
 			stack = append(stack, frame{end: pos + size, typ: typ})
@@ -452,6 +466,14 @@ func knownShape(c containerCase, data []byte, f *harness.Fail) *harness.Fail {
 }
 
 func checkData(c containerCase, data []byte) *harness.Fail {
+	// A nest of 1000 levels or more (as the library sees it) is the recorded finding whatever the recipe was: the error
+	// from the bottom is wrapped once per level and 20 000 levels exhaust the address space before any bound can be
+	// judged, so the shape is asked about before the case runs (counted like the recipes that announce it).
+	if !c.NoAvoid && c.avoid("nest-depth>=1000") && scanShape(data).depth >= 1000 {
+		lastRun.avoided = "nest-depth>=1000"
+		harness.Rec.Exclude("nest-depth>=1000")
+		return nil
+	}
 	pristine := append([]byte{}, data...)
 	res, f := watchedRun(c, data, false)
 	lastRun.res = res
